@@ -266,16 +266,91 @@ def _md_units(ck, p, f):
         ck.refuted(rule, "Markdown::parse:units", f.loc(bad[0][1]), "a char-indexed sink (%s) receives a value derived from a pulldown-cmark byte offset without chars().count(): every token after a multi-byte character would be displaced" % bad[0][0])
     else:
         ck.proved(rule, "Markdown::parse:units", f.span, "%d char-indexed sinks (Span::new*, push_by, source[..]); none derives from range.start/end or traversed_bytes except through chars().count()" % len(sinks))
-    # the accumulator: traversed_chars advances by chars().count() of source_str[traversed_bytes..range.start]
+    # the accumulators move in lock step: chars += source_str[bytes..X].chars().count(); bytes = X
     tc = names.get("traversed_chars")
-    ok = False
-    if tc is not None:
-        for (bi, si, kind, x) in pv.defs.get(tc, []):
-            if kind == "assign":
-                for o in flatten(pv.trace_operand(x["rv"]["op"])) if x["rv"]["k"] == "use" else []:
-                    if o[0] == "call" and last(norm(o[3] or o[2] or "")) == "count":
-                        ok = True
-    ck.decide(rule, "Markdown::parse:accumulator", ok, f.span, "traversed_chars is advanced by a chars().count(): %s" % ok)
+    cfg = Cfg(f)
+    if tc is None or tb is None:
+        ck.refuted(rule, "anchor-missing:Markdown::parse:accumulators", f.span, "traversed_chars / traversed_bytes not found")
+        return
+    parsed = [t for bi, t in f.calls() if "pulldown_cmark::parse::" in inst_of(t) and last(norm(inst_of(t))) in ("new_ext", "new")]
+    parsed_base = _base_local(f, pv, parsed[0]["args"][0]) if parsed else None
+
+    def origin_key(op):
+        pl = place_of(op)
+        if pl is None:
+            return ("const", str(op.get("k")))
+        # follow plain copies of a local
+        l = pl
+        for _ in range(6):
+            ds = [x for (b2, si, kind, x) in pv.defs.get(l[0], []) if kind == "assign"]
+            if len(l) == 1 and len(ds) == 1 and ds[0]["rv"]["k"] == "use" and place_of(ds[0]["rv"]["op"]):
+                l = place_of(ds[0]["rv"]["op"])
+            else:
+                break
+        return ("place", str(l))
+
+    def loop_defs(local):
+        out = []
+        for (bi, si, kind, x) in pv.defs.get(local, []):
+            if kind == "assign" and not (x["rv"]["k"] == "use" and "k" in x["rv"]["op"]):
+                out.append((bi, x))
+        return out
+
+    def char_step(x):
+        """for `tc = (tc + count(chars(index(S, Range{a, b})))).0` return (S base, a key, b key) else None"""
+        if x["rv"]["k"] != "use" or not place_of(x["rv"]["op"]):
+            return None
+        src = place_of(x["rv"]["op"])[0]
+        adds = [d for (b2, si, kind, d) in pv.defs.get(src, []) if kind == "assign" and d["rv"]["k"] in ("bin", "checked") and str(d["rv"].get("op", "")).startswith("Add")]
+        if len(adds) != 1:
+            return None
+        a, b = adds[0]["rv"]["a"], adds[0]["rv"]["b"]
+        ops = [o for o in (a, b) if not (place_of(o) and place_of(o)[0] == tc)]
+        if len(ops) != 1 or not place_of(ops[0]):
+            return None
+        cnt = [d for (b2, si, kind, d) in pv.defs.get(place_of(ops[0])[0], []) if kind == "call"]
+        if len(cnt) != 1 or last(norm(inst_of(cnt[0]) or def_of(cnt[0]))) != "count":
+            return None
+        chars = [o for o in flatten(pv.trace_operand(cnt[0]["args"][0])) if o[0] == "call" and last(norm(o[3] or o[2] or "")) == "chars"]
+        if len(chars) != 1:
+            return None
+        ct = f.blocks[chars[0][1]]["t"]
+        idx = [o for o in flatten(pv.trace_operand(ct["args"][0])) if o[0] == "call" and last(norm(o[3] or o[2] or "")) == "index"]
+        if len(idx) != 1:
+            return None
+        it = f.blocks[idx[0][1]]["t"]
+        rng_defs = [d for (b2, si, kind, d) in pv.defs.get(place_of(it["args"][1])[0], []) if kind == "assign" and d["rv"]["k"] == "agg"]
+        if len(rng_defs) != 1 or not rng_defs[0]["rv"].get("name", "").endswith("Range") or len(rng_defs[0]["rv"]["ops"]) != 2:
+            return None
+        return (_base_local(f, pv, it["args"][0]), origin_key(rng_defs[0]["rv"]["ops"][0]), origin_key(rng_defs[0]["rv"]["ops"][1]))
+
+    problems = []
+    tcd, tbd = loop_defs(tc), loop_defs(tb)
+    steps = []
+    for bi, x in tcd:
+        st_ = char_step(x)
+        if st_ is None:
+            problems.append((x["ln"], "traversed_chars is advanced by something other than the char count of a slice of the parsed text"))
+            continue
+        base, a_key, b_key = st_
+        if parsed_base is not None and base != parsed_base:
+            problems.append((x["ln"], "traversed_chars counts the chars of another string than the one handed to pulldown-cmark"))
+        if a_key != ("place", str([tb])):
+            problems.append((x["ln"], "the counted slice does not start at traversed_bytes"))
+        steps.append((bi, b_key))
+    for bi, x in tbd:
+        k = origin_key(x["rv"]["op"]) if x["rv"]["k"] == "use" else None
+        match = [sb for sb, bk in steps if bk == k and (cfg.dominates(sb, bi) or sb == bi)]
+        if not match:
+            problems.append((x["ln"], "traversed_bytes moves to %s without traversed_chars advancing by the chars of the source between the old and the new byte offset" % (k,)))
+    for sb, bk in steps:
+        if not any((origin_key(x["rv"]["op"]) if x["rv"]["k"] == "use" else None) == bk and (cfg.dominates(sb, bi) or sb == bi) for bi, x in tbd):
+            problems.append((f.blocks[sb]["s"][0]["ln"] if f.blocks[sb]["s"] else 0, "traversed_chars advances without traversed_bytes moving to the end of the counted slice"))
+    ck.floor(rule, "lock-step updates of the Markdown byte/char cursors", len(steps), 1)
+    if problems:
+        ck.refuted(rule, "Markdown::parse:accumulator", f.loc(problems[0][0]), "%s: the char cursor no longer equals the number of chars before the byte cursor, and every later token is displaced (%d update(s) break the pairing)" % (problems[0][1], len(problems)))
+    else:
+        ck.proved(rule, "Markdown::parse:accumulator", f.span, "every update inside the loop is the pair `traversed_chars += parsed_text[traversed_bytes..X].chars().count(); traversed_bytes = X` (%d pair(s))" % len(steps))
 
 
 # ---------------------------------------------------------------------------------------------------
